@@ -458,6 +458,71 @@ def tree_cases(rng, tier):
     return cs
 
 
+def block_cases(rng, tier):
+    """block operators at the root (and right below it), all four classes, 1..3 blocks, parts rn(1..3)"""
+    cs = C.CaseSet('blocks', ['C06.Syntax', 'Gen.UfuncDeriv', 'C06.Model', 'C06.Corr'], 'check', 'case')
+    g = Gen(rng)
+    import odl
+    O = odl.operator.operator
+    PS = odl.operator.pspace_ops
+    n = 60 if tier == 'quick' else 400
+    for kind in ('broadcast', 'reduction', 'diagonal', 'pso', 'sandwich'):
+        made = tries = 0
+        while made < n and tries < 20 * n:
+            tries += 1
+            d = rng.choice([0, 1, 1, 2, 2, 3])
+            k = rng.choice([1, 2, 2, 3])
+            if kind == 'broadcast':
+                dom, ran = g.vspace(), g.pspace(k)
+                op = PS.BroadcastOperator(*[g.tree(dom, b, d) for b in ran])
+            elif kind == 'reduction':
+                dom, ran = g.pspace(k), g.vspace()
+                op = PS.ReductionOperator(*[g.tree(a, ran, d) for a in dom])
+            elif kind == 'diagonal':
+                dom, ran = g.pspace(k), g.pspace(k)
+                op = PS.DiagonalOperator(*[g.tree(a, b, d) for a, b in zip(dom, ran)])
+            elif kind == 'pso':
+                dom, ran = g.pspace(), g.pspace()
+                nr, nc = len(ran), len(dom)
+                keep = [[rng.random() < 0.6 for _ in range(nc)] for _ in range(nr)]
+                for i in range(nr):
+                    if not any(keep[i]):
+                        keep[i][rng.randrange(nc)] = True
+                for j in range(nc):
+                    if not any(keep[i][j] for i in range(nr)):
+                        keep[rng.randrange(nr)][j] = True
+                op = PS.ProductSpaceOperator([[g.tree(dom[j], ran[i], d) if keep[i][j] else None
+                                               for j in range(nc)] for i in range(nr)])
+            else:
+                # reduction o (pso | diagonal) o broadcast, wrapped by the arithmetic classes
+                dom, ran = g.vspace(), g.vspace()
+                p1, p2 = g.pspace(k), g.pspace(k)
+                mid = PS.DiagonalOperator(*[g.tree(a, b, d) for a, b in zip(p1, p2)]) if rng.random() < 0.5 \
+                    else g.tree(p1, p2, 1)
+                op = O.OperatorComp(PS.ReductionOperator(*[g.tree(a, ran, d) for a in p2]),
+                                    O.OperatorComp(mid, PS.BroadcastOperator(*[g.tree(dom, b, d) for b in p1])))
+                w = rng.choice(['none', 'rscal', 'pprod', 'rvec'])
+                if w == 'rscal':
+                    op = O.OperatorRightScalarMult(op, rng.choice(SCAL))
+                elif w == 'pprod':
+                    op = O.OperatorPointwiseProduct(op, g.tree(dom, ran, 1))
+                elif w == 'rvec':
+                    op = O.OperatorRightVectorMult(op, g.el(dom))
+            x = g.el(op.domain, zero_ok=False)
+            dd = g.el(op.domain)
+            try:
+                r = run_case(op, x, dd)
+            except (ValueError, OverflowError, ZeroDivisionError):
+                r = None
+            if r is None:
+                continue
+            term, info = r
+            info['kind'] = kind
+            cs.add(term, info, (term,) if not op.is_linear else None)
+            made += 1
+    return cs
+
+
 # Pythagorean data: ||x|| and ||x - v|| are integers (exact roots in the Q model)
 PYTH = [([3.0, 4.0], [3.0, -1.0]), ([6.0, 8.0], [3.0, 4.0]), ([3.0, 4.0, 12.0], [3.0, 4.0, 0.0]),
         ([1.0, 2.0, 2.0], [1.0, -2.0, -1.0]), ([5.0], [2.0]), ([-4.0, 3.0], [0.0, 0.0]),
@@ -549,7 +614,7 @@ def ufunc_cases(rng, tier):
 
 
 def correspondence(rng, tier):
-    return [tree_cases(rng, tier), norm_cases(rng, tier), ufunc_cases(rng, tier)]
+    return [tree_cases(rng, tier), block_cases(rng, tier), norm_cases(rng, tier), ufunc_cases(rng, tier)]
 
 
 # =====================================================================  probes
